@@ -208,6 +208,11 @@ def s2_s3_call(ctx):
         n += 1
         w = sz[0].args.get('weights', ZERO)
         ov = match_overlay(w)
+        if ov is None and 'ACCUM' in fmt(w):
+            # built entry by entry in a loop (a comprehension over the zero weights, then the optimiser's extra assets added one at a time): not the overlay form this
+            # rule reads, and not evidence against it either
+            ctx.undecided('C09.S2', 'the sizer input overlays the optimiser weights on zero weights [%s]' % tag, sz[0].site, 'the weight vector is accumulated in a loop: %s' % fmt(w)[:160])
+            continue
         if not ctx.require(ov is not None, 'C09.S2', 'the sizer input overlays the optimiser weights on zero weights [%s]' % tag, sz[0].site, fmt(w)[:200], key='C09.S2|overlay'):
             continue
         z, o = ov
